@@ -69,7 +69,7 @@ def rand_file(rng):
     fmt = rng.choice((0, 1, 1, 1))
     ntr = 1 if fmt == 0 else rng.choice((1, 2, 3, 4))
     tpb = rng.choice((1, 2, 96, 480, 32767, rng.randrange(1, 32768)))
-    mid = MidiFile(type=fmt, ticks_per_beat=tpb)
+    mid = MidiFile(type=fmt, ticks_per_beat=tpb, charset=rng.choice(('latin1', 'utf-8', 'utf-8', 'shift_jis')))
     for ti in range(ntr):
         tr = MidiTrack()
         for _ in range(rng.choice((0, 1, 5, 20, 40))):
@@ -83,7 +83,8 @@ def rand_file(rng):
                 if rng.random() < 0.2:
                     tr.append(MetaMessage('set_tempo', tempo=rng.randrange(2 ** 24), time=0))
             elif r < 0.30:
-                tr.append(MetaMessage('marker', text='m', time=d))
+                # (texts play no part in timing - whatever they say, in whatever script)
+                tr.append(MetaMessage(rng.choice(('marker', 'text', 'lyrics')), text=rng.choice(('m', 'm', 'caf\xe9', '\u30d4\u30a2\u30ce', '\u20ac 5')), time=d))
             elif r < 0.35:
                 # other meta events that musicians read as "tempo-like" but that do not change the tick length
                 tr.append(rng.choice((MetaMessage('time_signature', numerator=6, denominator=8, time=d),
